@@ -213,10 +213,13 @@ def task(t):
         n = len(names)
     else:
         names = names_for(n, env.SEED)
-    U = Universe(names)
+    # the extra (non-support) variables are part of the universe: a loader that labels a node
+    # with one of them yields a function that can be evaluated and compared
+    exnames = tuple(dict.fromkeys(e for ex in extras for _, e in ex))
+    U = Universe(tuple(names) + exnames)
     order = sweep.orders(names)[oi]
     seq = sorted(order, key=order.get)
-    fs = list(range(1 << U.N)) if n <= 3 else None
+    fs = list(U.all_functions(tuple(names))) if n <= 3 else None
     # root sets
     if rootsets == 'singles':
         sets = [(f,) for f in fs if f not in (0, U.full)]
@@ -229,7 +232,15 @@ def task(t):
         sets = [(fs[a], fs[b], U.full ^ fs[a]) for a in range(7, len(fs), 41)
                 for b in range(11, len(fs), 53)]
     else:
-        sets = [tuple(x) for x in rootsets]
+        # written-out masks are truth tables over `names` alone: repeat them over the extras
+        small = 1 << n
+
+        def lift(f):
+            g = 0
+            for k_ in range(1 << len(exnames)):
+                g |= f << (k_ * small)
+            return g
+        sets = [tuple(lift(f) for f in x) for x in rootsets]
     mine = sweep.shard(sets, ns)[si]
     path = 'c16-%d.dddmp' % os.getpid()
     for rs in mine:
@@ -351,7 +362,7 @@ def task_seq(t):
     rec = sweep.Rec(rep)
     env.scratch_dir()
     names = names_for(3, env.SEED)
-    U = Universe(names)
+    U = Universe(tuple(names) + ('e0',))
     X = [U.var(v) for v in names]
     setups = [
         (list(names), (X[0] & X[1] | X[2], U.full ^ (X[0] ^ X[2]))),
